@@ -378,6 +378,9 @@ func runSolver(ctx context.Context, solver, file string, timeout time.Duration) 
 		cmd = exec.CommandContext(ctx, "z3", fmt.Sprintf("-T:%d", secs), file)
 	case "z3-new":
 		cmd = exec.CommandContext(ctx, "z3-new", fmt.Sprintf("-T:%d", secs), file)
+	case "z3-new-ematch":
+		// pattern-driven instantiation only: every quantifier the generator emits carries patterns
+		cmd = exec.CommandContext(ctx, "z3-new", fmt.Sprintf("-T:%d", secs), "smt.auto_config=false", "smt.mbqi=false", file)
 	case "cvc5":
 		// cvc5 reserves sqrt: give it the same problem with the uninterpreted symbol renamed
 		if b, err := os.ReadFile(file); err == nil && bytes.Contains(b, []byte("(declare-fun sqrt ")) {
@@ -464,6 +467,10 @@ func discharge(o *Obligation, dir string, timeout time.Duration, idx int) {
 			o.Result, o.Solver, o.Time = "unsat", "z3-new(nl-abstracted)", time.Since(t0).Seconds()
 			return
 		}
+		if r := runSolver(context.Background(), "z3-new-ematch", fa, 4*time.Second); r.result == "unsat" {
+			o.Result, o.Solver, o.Time = "unsat", "z3-new-ematch(nl-abstracted)", time.Since(t0).Seconds()
+			return
+		}
 	}
 	quick := runSolver(context.Background(), "z3-new", fname, 3*time.Second)
 	if quick.result == "unsat" || quick.result == "sat" {
@@ -513,8 +520,8 @@ func discharge(o *Obligation, dir string, timeout time.Duration, idx int) {
 	}
 	ctx, cancel := context.WithCancel(context.Background())
 	defer cancel()
-	ch := make(chan solverRes, 3)
-	solvers := []string{"z3", "z3-new", "cvc5"}
+	ch := make(chan solverRes, 4)
+	solvers := []string{"z3", "z3-new", "cvc5", "z3-new-ematch"}
 	for _, s := range solvers {
 		go func(s string) { ch <- runSolver(ctx, s, fname, timeout) }(s)
 	}
